@@ -51,7 +51,7 @@ def harnesses(ctx, pairs):
     # conversion constructors ... reach code the op-table harnesses above do not.  quick: under the combined-macro and the CXX98 variants.
     sel = (lambda lab: lab.startswith("CXX11+INLINE+CTOR_INIT+EXPLICIT_CTOR+UNRESTRICTED+WXYZ") or lab == "CXX98") if ctx.quick else (lambda lab: True)
     # (c04 uses the explicit conversion operators of qua, a C++11 language feature: not under CXX98)
-    hs += [("c04", "c04.cpp", lambda tr: [tr, "quick"], (lambda lab: sel(lab) and "CXX98" not in lab and "CXX03" not in lab), ["-DC04_FULL"]), ("c09", "c09.cpp", lambda tr: [tr, "0", "quick", "full"], sel),
+    hs += [("c04", "c04.cpp", lambda tr: [tr, "quick"], (lambda lab: sel(lab) and not any(x in lab for x in ("CXX98", "CXX03", "CXX_UNKNOWN"))), ["-DC04_FULL"]), ("c09", "c09.cpp", lambda tr: [tr, "0", "quick", "full"], sel),
            ("c08", "c08.cpp", lambda tr: [tr, "10", "quick", "full"], sel, ["-DC08_HAVE_INF_HALF"]), ("c12", "c12.cpp", lambda tr: [tr, "quick"], sel)]
     return hs
 
@@ -144,6 +144,7 @@ def run(ctx):
            "definition on all patterns of the mini float format (std vs bundled round/trunc/isnan/fmin/fmax/nextafter fallbacks)")
     pairs = c05.gen_pairs(ctx)
     variants = QUICK_VARIANTS if ctx.quick else THOROUGH_VARIANTS
+    variants = [v for i, v in enumerate(variants) if v[0] not in [w[0] for w in variants[:i]]]        # one build per label
     hs = harnesses(ctx, pairs)
     specs = []
     for (lab, flags, cxx, opt) in [BASE] + variants:
@@ -192,7 +193,7 @@ def run(ctx):
         for (lab, flags, cxx, opt) in variants:
             tr = traces.get((lab, hn))
             if tr:
-                fallback = any(f in ("-DGLM_FORCE_CXX98", "-DGLM_FORCE_CXX03") for f in flags)
+                fallback = any(f in ("-DGLM_FORCE_CXX98", "-DGLM_FORCE_CXX03", "-DGLM_FORCE_CXX_UNKNOWN") for f in flags)
                 cross_validate(ctx, base, tr, "%s-%s" % (hn, lab), "fallback" if fallback else "std", rkeys="r" if hn in ("c04", "c08", "c09", "c12") else "all")
                 os.remove(tr)
     ctx.rule("the op-table harnesses of C01, C02, C05, C11, C14 (+ C06, C18 thorough) compiled under a baseline (g++ -std=c++17 -O1) and %d variant "
@@ -238,5 +239,5 @@ def replay_pairs(ctx, path, mode, kind="std", rkeys="all"):
 
 def replay(ctx, path):
     base = os.path.basename(path)
-    return replay_pairs(ctx, path, "config", "fallback" if ("CXX98" in base or "CXX03" in base) else "std",
+    return replay_pairs(ctx, path, "config", "fallback" if ("CXX98" in base or "CXX03" in base or "CXX_UNKNOWN" in base) else "std",
                         "r" if any(("-%s-" % h) in base for h in ("c04", "c08", "c09", "c12")) else "all")
